@@ -80,6 +80,8 @@ class TreeTheory(MarkerTheory):
     def to_str(self, ex, x):
         if isinstance(x, Token):
             return x.text
+        if isinstance(x, QuotedText):
+            return x
         return super().to_str(ex, x)
 
     def str_concat(self, ex, parts):
@@ -190,10 +192,17 @@ class BuildMarkers(Contract):
 
 
 class AtomText:
-    """the text MarkerExpression.__str__ produced: `<variable> <op> "<literal>"` or `"<literal>" <op> <variable>`"""
+    """the text MarkerExpression.__str__ produced: `<variable> <op> <q><literal><q>` or `<q><literal><q> <op> <variable>`, q one of the two quote characters"""
 
-    def __init__(self, var, op, lit, var_first):
-        self.var, self.op, self.lit, self.var_first = var, op, lit, var_first
+    def __init__(self, var, op, lit, var_first, quote='"'):
+        self.var, self.op, self.lit, self.var_first, self.quote = var, op, lit, var_first, quote
+
+
+class QuotedText:
+    """<q><literal><q> built on its own (a quoting helper)"""
+
+    def __init__(self, lit, quote):
+        self.lit, self.quote = lit, quote
 
 
 def atom_text_of(parts):
@@ -206,14 +215,27 @@ def atom_text_of(parts):
         else:
             merged.append(p)
     sym = lambda x: z3.is_expr(x) and z3.is_string(x)
-    if len(merged) == 4 and sym(merged[0]) and isinstance(merged[1], str) and sym(merged[2]) and merged[3] == '"':
-        m = re.fullmatch(r' (\S+(?: in)?) "', merged[1])
+    # a quoted literal on its own
+    if len(merged) == 3 and merged[0] in ('"', "'") and merged[2] == merged[0] and sym(merged[1]):
+        return QuotedText(merged[1], merged[0])
+    # ... spliced into the atom text
+    if len(merged) == 3 and sym(merged[0]) and isinstance(merged[1], str) and isinstance(merged[2], QuotedText):
+        m = re.fullmatch(r' (\S+(?: in)?) ', merged[1])
         if m:
-            return AtomText(merged[0], m.group(1), merged[2], True)
-    if len(merged) == 4 and merged[0] == '"' and sym(merged[1]) and isinstance(merged[2], str) and sym(merged[3]):
-        m = re.fullmatch(r'" (\S+(?: in)?) ', merged[2])
+            return AtomText(merged[0], m.group(1), merged[2].lit, True, merged[2].quote)
+    if len(merged) == 3 and isinstance(merged[0], QuotedText) and isinstance(merged[1], str) and sym(merged[2]):
+        m = re.fullmatch(r' (\S+(?: in)?) ', merged[1])
         if m:
-            return AtomText(merged[3], m.group(1), merged[1], False)
+            return AtomText(merged[2], m.group(1), merged[0].lit, False, merged[0].quote)
+    for q in ('"', "'"):
+        if len(merged) == 4 and sym(merged[0]) and isinstance(merged[1], str) and sym(merged[2]) and merged[3] == q:
+            m = re.fullmatch(r' (\S+(?: in)?) ' + q, merged[1])
+            if m:
+                return AtomText(merged[0], m.group(1), merged[2], True, q)
+        if len(merged) == 4 and merged[0] == q and sym(merged[1]) and isinstance(merged[2], str) and sym(merged[3]):
+            m = re.fullmatch(q + r' (\S+(?: in)?) ', merged[2])
+            if m:
+                return AtomText(merged[3], m.group(1), merged[1], False, q)
     return None
 
 
@@ -244,12 +266,16 @@ def roundtrip_cases(th):
                     return [("C07.atom.reparses-to-an-atom", z3.BoolVal(False))]
                 fb = back.fields
                 same_rev = fb.get("reversed") is rev or (z3.is_expr(fb.get("reversed")) and z3.is_true(z3.simplify(fb["reversed"] == rev)))
-                return [("C07.atom.written-operand-order", z3.BoolVal(text.var_first == (not rev))),
+                # PEP 508 strings have no escapes: the literal is readable only if the quote character around it does not occur in it
+                return [("C07.atom.quote-does-not-occur-in-the-literal", z3.Not(z3.Contains(a.fields["value"], z3.StringVal(text.quote)))),
+                        ("C07.atom.written-operand-order", z3.BoolVal(text.var_first == (not rev))),
                         ("C07.atom.roundtrip-same-variable", fb["name"] == a.fields["name"]),
                         ("C07.atom.roundtrip-same-literal", fb["value"] == a.fields["value"]),
                         ("C07.atom.roundtrip-same-operator", z3.BoolVal(fb.get("op") == op)),
                         ("C07.atom.roundtrip-same-operand-order", z3.BoolVal(bool(same_rev)))]
-            yield {"name": f"roundtrip.{op}.{'literal-first' if rev else 'var-first'}", "pre": [], "thunk": thunk, "post": post, "args": ()}
+            # a PEP 508 literal is written in one of the two quote characters and cannot contain that one: it never holds both
+            lit_pre = [z3.Not(z3.And(z3.Contains(value, z3.StringVal('"')), z3.Contains(value, z3.StringVal("'"))))]
+            yield {"name": f"roundtrip.{op}.{'literal-first' if rev else 'var-first'}", "pre": lit_pre, "thunk": thunk, "post": post, "args": ()}
 
 
 def setup(ix):
